@@ -292,6 +292,10 @@ RECORD_GRAMMAR = ('IF h = <<>> THEN c.c = "beginrecord" ELSE LET l == h[Len(h)].
                   '[] l = "int" -> c.c \\in {"field", "endrecord"} [] l = "endrecord" -> c.c = "beginrecord" [] OTHER -> TRUE')
 
 
+APPEND_ALPHABET = ('{[c |-> "append", src |-> s, at |-> i] : s \\in {"idx64", "idx32", "opt", "lists"}, i \\in {0, 1, 2, 3}} \\cup '
+                   '{[c |-> "null"], [c |-> "int", x |-> 1], [c |-> "beginlist"], [c |-> "endlist"], [c |-> "clear"]}')
+
+
 def run_C14(ctx):
     ctx.build("opt")
     n = 5 if ctx.quick() else 6
@@ -299,6 +303,13 @@ def run_C14(ctx):
                   invariants=["SnapshotLength", "UnifyKeepsValues"], properties=["ErrorsLeaveState"],
                   init="BInit", next_="BNext", view="BView", action_constraints=["BEmit"],
                   translate=("replay", "steps_builder"), judge_fn=("replay", "judge_builder"))
+    # append(array, at): elements of existing arrays (IndexedArray64/32 with a permuting index, IndexedOptionArray64, lists with
+    # an offset origin) placed as values, between nulls, integers and list brackets
+    ctx.tlc_phase("append-from-arrays", "Builder", dict(Alphabet=APPEND_ALPHABET, MaxCmds=str(4 if ctx.quick() else 5), MaxOpen="99", WellNestedOnly="FALSE",
+                                                        EmitOn="TRUE", **{"Allowed(h, c)": "TRUE"}),
+                  invariants=["SnapshotLength", "UnifyKeepsValues"], properties=["ErrorsLeaveState"],
+                  init="BInit", next_="BNext", view="BView", action_constraints=["BEmit"],
+                  translate=("replay", "steps_builder_cpp"), judge_fn=("replay", "judge_builder"))
     # directed: ALL sequences of flat records over three keys in every order / subset (field lookup is stateful: nexttotry_)
     ctx.tlc_phase("records-key-orders", "Builder",
                   dict(Alphabet=RECORD_ALPHABET, MaxCmds=str(14 if ctx.quick() else 18), MaxOpen="1", WellNestedOnly="TRUE", EmitOn="TRUE",
